@@ -14,6 +14,7 @@ import Mahotas.Proofs.C18BSplineW
 import Mahotas.Proofs.C18Interp
 import Mahotas.Proofs.C18Resize
 import Mathlib.Data.Rat.Floor
+import Mahotas.Proofs.Modes
 
 open Mahotas Mahotas.C18
 
@@ -834,3 +835,12 @@ theorem C18_resize_rgb_to_shape {K : Type} [Field K] [LinearOrder K] [IsStrictOr
 /-- `resize_rgb_to` raises on anything that is not `(h, w, 3)` -/
 example : resizeRgbTo (fun z : ℚ => ⌊z⌋) id 1 { shape := [2, 2], data := #[0, 1, 2, 3] } [2, 2] = none := by
   simp [resizeRgbTo]
+
+/-- **C18 (tie to the source, generated tables).** The code by which the models number a border mode is the code the
+current source gives it in both places: `mode2int` of `mahotas/_filters.py` (what the wrappers send) and
+`enum ExtendMode` of `mahotas/_filters.h` (what the kernels switch on); neither table has further entries. Both tables
+are regenerated from the source on every run. -/
+theorem C18_mode_codes_agree (m : Mahotas.Mode) :
+    (Mahotas.Generated.pyModes.lookup m.name = some m.code ∧ Mahotas.Generated.cppModes.lookup m.name = some m.code) ∧
+    Mahotas.Generated.pyModes.length = 6 ∧ Mahotas.Generated.cppModes.length = 6 :=
+  ⟨Mahotas.mode_codes_agree m, Mahotas.mode_tables_complete.1, Mahotas.mode_tables_complete.2.1⟩
